@@ -1,8 +1,548 @@
-//! C15 — not built yet (stub).
+//! C15 — arithmetic filters. This module only RECORDS: every evaluation of a math filter on the real
+//! code becomes one event `{op, a, b, prof, res[, res2][, twin]}` in the worker's event log; the
+//! judging (Python big integers / IEEE doubles) is in `/verif/checkers/c15_arith.py`.
+//!
+//! Event schema
+//!   op    : abs | at_least | at_most | plus | minus | times | divided_by | modulo | round | ceil | floor
+//!   a, b  : {"k":"int","v":"<decimal>"} | {"k":"float","v":"<16 hex digits of the f64 bits>"}
+//!           | {"k":"str","v":"<text>","n":<the number operand the text was spelled from, or null>}
+//!           b is null for the unary form (for `round`, b is the decimal-places argument)
+//!   res   : {"k":"int|float|str|err|panic|other","v":...} parsed from `{{ a | op: b | vdump }}`
+//!           (panic: v = p.key(), plus "site" and "msg")
+//!   res2  : only for op = divided_by: the result of `modulo` on the same operands (q and r in one
+//!           event, so that the checker can test n = q*d + r)
+//!   twin  : only when an operand is a string spelled from a number: {a, b, res[, res2]} of the same
+//!           filter on the numbers themselves ("numeric strings behave like the numbers they spell")
+use crate::cfg::{parser, Config};
 use crate::ctx::Ctx;
+use crate::exec::{render, Out};
+use crate::rng::{hash_str, Rng};
+use liquid::model::Value;
+use liquid::{Object, Template};
+use serde_json::{json, Value as Json};
+use std::collections::BTreeMap;
 
-pub fn run(_ctx: &mut Ctx) {}
+#[derive(Clone, Debug)]
+pub enum Opnd {
+    Int(i64),
+    Float(f64),
+    /// text, and the number it was spelled from (None: free text)
+    Str(String, Option<Box<Opnd>>),
+}
 
-pub fn replay(_j: &serde_json::Value) -> bool {
+impl Opnd {
+    fn to_liquid(&self) -> Value {
+        match self {
+            Opnd::Int(i) => Value::scalar(*i),
+            Opnd::Float(f) => Value::scalar(*f),
+            Opnd::Str(s, _) => Value::scalar(s.clone()),
+        }
+    }
+    fn to_json(&self) -> Json {
+        match self {
+            Opnd::Int(i) => json!({"k":"int","v": i.to_string()}),
+            Opnd::Float(f) => json!({"k":"float","v": format!("{:016x}", f.to_bits())}),
+            Opnd::Str(s, n) => {
+                json!({"k":"str","v": s, "n": n.as_ref().map(|n| n.to_json()).unwrap_or(Json::Null)})
+            }
+        }
+    }
+    fn from_json(j: &Json) -> Option<Opnd> {
+        let v = j.get("v")?.as_str()?;
+        match j.get("k")?.as_str()? {
+            "int" => v.parse::<i64>().ok().map(Opnd::Int),
+            "float" => u64::from_str_radix(v, 16).ok().map(|b| Opnd::Float(f64::from_bits(b))),
+            "str" => Some(Opnd::Str(
+                v.to_string(),
+                j.get("n").and_then(Opnd::from_json).map(Box::new),
+            )),
+            _ => None,
+        }
+    }
+    fn kind(&self) -> &'static str {
+        match self {
+            Opnd::Int(_) => "int",
+            Opnd::Float(_) => "float",
+            Opnd::Str(..) => "str",
+        }
+    }
+    /// short text used for hashing / sharding
+    fn tag(&self) -> String {
+        match self {
+            Opnd::Int(i) => format!("i{i}"),
+            Opnd::Float(f) => format!("f{:x}", f.to_bits()),
+            Opnd::Str(s, _) => format!("s{s}"),
+        }
+    }
+    /// the number a spelled string stands for (itself for numbers)
+    fn twin(&self) -> Opnd {
+        match self {
+            Opnd::Str(_, Some(n)) => (**n).clone(),
+            o => o.clone(),
+        }
+    }
+    fn has_twin(&self) -> bool {
+        matches!(self, Opnd::Str(_, Some(_)))
+    }
+    /// only for the `nontrivial` flag: does the real coercion see a number here
+    fn numeric(&self) -> bool {
+        match self {
+            Opnd::Str(s, _) => s.parse::<f64>().is_ok(),
+            _ => true,
+        }
+    }
+}
+
+fn int_str(i: i64) -> Opnd {
+    Opnd::Str(i.to_string(), Some(Box::new(Opnd::Int(i))))
+}
+/// shortest text that reads back as the same double (Rust's `{:?}` is round-trip exact)
+fn float_str(f: f64) -> Opnd {
+    Opnd::Str(format!("{f:?}"), Some(Box::new(Opnd::Float(f))))
+}
+fn free_str(s: &str) -> Opnd {
+    Opnd::Str(s.to_string(), None)
+}
+
+pub const BINARY: [&str; 7] = ["at_least", "at_most", "plus", "minus", "times", "divided_by", "modulo"];
+pub const UNARY: [&str; 4] = ["abs", "ceil", "floor", "round"];
+
+pub struct Tpls {
+    unary: BTreeMap<&'static str, Template>,
+    binary: BTreeMap<&'static str, Template>,
+}
+
+impl Tpls {
+    pub fn new() -> Tpls {
+        let p = parser(Config::Stdlib);
+        let mut unary = BTreeMap::new();
+        let mut binary = BTreeMap::new();
+        for op in UNARY {
+            unary.insert(op, p.parse(&format!("{{{{ a | {op} | vdump }}}}")).expect("c15 template"));
+        }
+        for op in BINARY.iter().chain(["round"].iter()) {
+            binary.insert(*op, p.parse(&format!("{{{{ a | {op}: b | vdump }}}}")).expect("c15 template"));
+        }
+        Tpls { unary, binary }
+    }
+    fn get(&self, op: &str, has_b: bool) -> Option<&Template> {
+        if has_b {
+            self.binary.get(op)
+        } else {
+            self.unary.get(op)
+        }
+    }
+}
+
+fn res_json(out: &Out) -> Json {
+    match out {
+        Out::Ok(s) => {
+            if let Some(r) = s.strip_prefix("i:") {
+                json!({"k":"int","v": r})
+            } else if let Some(r) = s.strip_prefix("f:") {
+                json!({"k":"float","v": r})
+            } else if let Some(r) = s.strip_prefix("s:") {
+                match serde_json::from_str::<String>(r) {
+                    Ok(t) => json!({"k":"str","v": t}),
+                    Err(_) => json!({"k":"other","v": s}),
+                }
+            } else {
+                json!({"k":"other","v": s})
+            }
+        }
+        Out::Err(m) => json!({"k":"err","v": m}),
+        Out::Panic(p) => json!({"k":"panic","v": p.key(), "site": p.site(), "msg": p.msg}),
+        Out::BadUtf8(b) => json!({"k":"other","v": format!("non-utf8 output of {} bytes", b.len())}),
+    }
+}
+
+fn eval1(t: &Template, a: &Opnd, b: Option<&Opnd>) -> Json {
+    let mut o = Object::new();
+    o.insert("a".into(), a.to_liquid());
+    if let Some(b) = b {
+        o.insert("b".into(), b.to_liquid());
+    }
+    res_json(&render(t, &o))
+}
+
+/// one recorded evaluation (plus the modulo companion and the numeric twin where applicable)
+pub fn eval_case(tp: &Tpls, op: &str, a: &Opnd, b: Option<&Opnd>) -> Option<Json> {
+    let t = tp.get(op, b.is_some())?;
+    let mut ev = json!({
+        "op": op,
+        "a": a.to_json(),
+        "b": b.map(|b| b.to_json()).unwrap_or(Json::Null),
+        "prof": crate::profile_name(),
+        "res": eval1(t, a, b),
+    });
+    let tmod = tp.get("modulo", true)?;
+    if op == "divided_by" {
+        ev["res2"] = eval1(tmod, a, b);
+    }
+    if a.has_twin() || b.map(|b| b.has_twin()).unwrap_or(false) {
+        let ta = a.twin();
+        let tb = b.map(|b| b.twin());
+        let mut tw = json!({
+            "a": ta.to_json(),
+            "b": tb.as_ref().map(|b| b.to_json()).unwrap_or(Json::Null),
+            "res": eval1(t, &ta, tb.as_ref()),
+        });
+        if op == "divided_by" {
+            tw["res2"] = eval1(tmod, &ta, tb.as_ref());
+        }
+        ev["twin"] = tw;
+    }
+    Some(ev)
+}
+
+struct Run<'a> {
+    ctx: &'a mut Ctx,
+    tp: Tpls,
+}
+
+impl Run<'_> {
+    fn case(&mut self, family: &str, op: &str, a: &Opnd, b: Option<&Opnd>) {
+        let key = format!("{op}|{}|{}", a.tag(), b.map(|b| b.tag()).unwrap_or_default());
+        let h = hash_str(&key);
+        if !self.ctx.mine(h) {
+            return;
+        }
+        if self.ctx.evaluations % 256 == 0 {
+            self.ctx.set_progress(&format!("{{\"check\":\"C15\",\"case\":{:?}}}", key));
+        }
+        let Some(ev) = eval_case(&self.tp, op, a, b) else { return };
+        let nontrivial = a.numeric() && b.map(|b| b.numeric()).unwrap_or(true);
+        self.ctx.record(h, nontrivial);
+        self.ctx.count(&format!("op:{op}"));
+        self.ctx.count(&format!("family:{family}"));
+        self.ctx.count(&format!("kinds:{}x{}", a.kind(), b.map(|b| b.kind()).unwrap_or("-")));
+        self.ctx.count(&format!("result:{}", ev["res"]["k"].as_str().unwrap_or("?")));
+        if ev["res"]["k"] == "panic" {
+            self.ctx.set_insert("panic_sites", hash_str(ev["res"]["site"].as_str().unwrap_or("")));
+        }
+        self.ctx.event(&ev);
+        self.ctx.sample(|| ev.clone());
+    }
+    fn all_binary(&mut self, family: &str, a: &Opnd, b: &Opnd) {
+        for op in BINARY {
+            self.case(family, op, a, Some(b));
+        }
+    }
+    fn all_unary(&mut self, family: &str, a: &Opnd) {
+        for op in UNARY {
+            self.case(family, op, a, None);
+        }
+        for d in [-1i64, 0, 1, 2, 3] {
+            self.case(family, "round", a, Some(&Opnd::Int(d)));
+        }
+    }
+}
+
+pub fn boundary_ints() -> Vec<i64> {
+    vec![
+        0,
+        1,
+        -1,
+        2,
+        -2,
+        3,
+        -3,
+        7,
+        -7,
+        10,
+        1 << 31,
+        -(1 << 31),
+        1 << 62,
+        -(1 << 62),
+        i64::MAX - 1,
+        i64::MAX,
+        i64::MIN,
+        i64::MIN + 1,
+    ]
+}
+
+fn special_floats() -> Vec<f64> {
+    let two63 = 9223372036854775808.0f64;
+    vec![
+        0.0,
+        -0.0,
+        f64::NAN,
+        f64::INFINITY,
+        f64::NEG_INFINITY,
+        f64::MIN_POSITIVE,
+        f64::from_bits(1),
+        f64::MAX,
+        f64::MIN,
+        two63,
+        -two63,
+        f64::from_bits(two63.to_bits() - 1),    // largest double below 2^63
+        -f64::from_bits(two63.to_bits() + 1),   // first double below -2^63
+        9007199254740992.0,                     // 2^53
+        -9007199254740992.0,
+        9007199254740994.0,
+        4503599627370495.5,                     // 2^52 - 0.5: largest tie
+        -4503599627370495.5,
+        4503599627370496.5f64,                  // not representable: rounds to even
+        0.49999999999999994,                    // largest double below 0.5 (floor(x + 0.5) is wrong here)
+        -0.49999999999999994,
+        0.5,
+        -0.5,
+        1.5,
+        2.5,
+        -2.5,
+        1e-300,
+        1e300,
+        0.1,
+        0.7,
+        2.675,
+        1.005,
+        -1.005,
+        123456789.987654321,
+    ]
+}
+
+fn free_strings() -> Vec<Opnd> {
+    let mut v = vec![
+        // spelled numbers in other spellings than the canonical one
+        Opnd::Str("1.5".into(), Some(Box::new(Opnd::Float(1.5)))),
+        Opnd::Str("-0.5".into(), Some(Box::new(Opnd::Float(-0.5)))),
+        Opnd::Str("+3".into(), Some(Box::new(Opnd::Int(3)))),
+        Opnd::Str("00012".into(), Some(Box::new(Opnd::Int(12)))),
+        Opnd::Str("0.0".into(), Some(Box::new(Opnd::Float(0.0)))),
+        Opnd::Str("-0.0".into(), Some(Box::new(Opnd::Float(-0.0)))),
+        Opnd::Str("1e3".into(), Some(Box::new(Opnd::Float(1000.0)))),
+        Opnd::Str("2.50".into(), Some(Box::new(Opnd::Float(2.5)))),
+        Opnd::Str(".5".into(), Some(Box::new(Opnd::Float(0.5)))),
+        Opnd::Str("7.".into(), Some(Box::new(Opnd::Float(7.0)))),
+        // integers spelled out that do not fit in 64 bits
+        free_str("9223372036854775808"),
+        free_str("-9223372036854775809"),
+        free_str("18446744073709551616"),
+        free_str("123456789012345678901234567890"),
+    ];
+    // not numbers (an error is the expected outcome; only totality is asserted)
+    // "-0": the integer 0 or the double -0.0? ambiguous, so no twin and no exact expectation
+    for s in ["-0", " 3", "3 ", "", " ", "abc", "0x10", "1_000", "٣", "NaN", "inf", "-inf", "infinity", "1e", "--1", "1,5", "½", "3abc", "true"] {
+        v.push(free_str(s));
+    }
+    v
+}
+
+pub fn run(ctx: &mut Ctx) {
+    ctx.start_watchdog(120);
+    let random_events = ctx.scale(26_000u64, 2_900_000u64);
+    let rng = ctx.rng("c15-random");
+    let mut r = Run { ctx, tp: Tpls::new() };
+    boundary_pairs(&mut r);
+    eighths(&mut r);
+    specials(&mut r);
+    random(&mut r, rng, random_events);
+}
+
+/// all pairs of the boundary set, each operand as integer, as numeric string and as the nearest float
+fn boundary_pairs(r: &mut Run) {
+    let b = boundary_ints();
+    let reps = |i: i64| [Opnd::Int(i), int_str(i), Opnd::Float(i as f64)];
+    for &x in &b {
+        for a in reps(x) {
+            r.all_unary("boundary-unary", &a);
+            for &y in &b {
+                for bb in reps(y) {
+                    r.all_binary("boundary-pairs", &a, &bb);
+                }
+            }
+        }
+    }
+}
+
+/// all pairs of k/8, |k| <= 40 (every .5 tie) as floats; as strings for the unary filters and a sub-square
+fn eighths(r: &mut Run) {
+    let ks: Vec<i64> = (-40..=40).collect();
+    for &k in &ks {
+        let a = Opnd::Float(k as f64 / 8.0);
+        r.all_unary("eighths-unary", &a);
+        r.all_unary("eighths-unary-str", &float_str(k as f64 / 8.0));
+        for &l in &ks {
+            let b = Opnd::Float(l as f64 / 8.0);
+            r.all_binary("eighths-pairs", &a, &b);
+            if k.abs() <= 8 && l.abs() <= 8 {
+                r.all_binary("eighths-pairs-str", &float_str(k as f64 / 8.0), &b);
+                r.all_binary("eighths-pairs-str", &float_str(k as f64 / 8.0), &float_str(l as f64 / 8.0));
+                r.all_binary("eighths-pairs-str", &a, &int_str(l));
+                r.all_binary("eighths-pairs-int", &a, &Opnd::Int(l));
+                r.all_binary("eighths-pairs-int", &Opnd::Int(k), &b);
+            }
+        }
+    }
+}
+
+/// special doubles and free-form strings against a small set of partners
+fn specials(r: &mut Run) {
+    let partners: Vec<Opnd> = vec![
+        Opnd::Int(0),
+        Opnd::Int(1),
+        Opnd::Int(-1),
+        Opnd::Int(3),
+        Opnd::Int(i64::MAX),
+        Opnd::Int(i64::MIN),
+        Opnd::Float(0.0),
+        Opnd::Float(-0.0),
+        Opnd::Float(2.5),
+        Opnd::Float(-1.0),
+        Opnd::Float(f64::INFINITY),
+        Opnd::Float(f64::NAN),
+        int_str(2),
+        float_str(0.5),
+    ];
+    let sf = special_floats();
+    for &x in &sf {
+        let a = Opnd::Float(x);
+        r.all_unary("special-floats", &a);
+        if x.is_finite() {
+            r.all_unary("special-floats-str", &float_str(x));
+        }
+        for p in &partners {
+            r.all_binary("special-floats", &a, p);
+            r.all_binary("special-floats", p, &a);
+        }
+        for &y in &sf {
+            r.all_binary("special-floats", &a, &Opnd::Float(y));
+        }
+    }
+    for s in free_strings() {
+        r.all_unary("free-strings", &s);
+        for p in &partners {
+            r.all_binary("free-strings", &s, p);
+            r.all_binary("free-strings", p, &s);
+        }
+    }
+    // the decimal-places argument of `round` in other kinds
+    for x in [2.5f64, -2.5, 2.675, 1234.5678, 0.125, 1e18, 9.2e18] {
+        for d in [Opnd::Int(4), Opnd::Int(15), Opnd::Int(308), Opnd::Int(400), Opnd::Int(i64::MAX), Opnd::Int(i64::MIN), int_str(2), Opnd::Float(2.0), free_str("x")] {
+            r.case("round-places", "round", &Opnd::Float(x), Some(&d));
+        }
+    }
+}
+
+fn rand_width_int(r: &mut Rng) -> i64 {
+    let bits = r.below(64) as u32 + 1; // 1..=64 significant bits
+    let v = r.next() >> (64 - bits);
+    let v = v as i64; // for bits = 64 this covers the whole range incl. negative values
+    if bits < 64 && r.chance(1, 2) {
+        -v
+    } else {
+        v
+    }
+}
+
+/// a double inside the i64 range with a random number of fractional bits
+fn rand_frac_float(r: &mut Rng) -> f64 {
+    let m = (r.next() >> 11) as f64; // 53 random bits, exact
+    let e = r.below(64) as i32; // scale 2^-e .. : magnitude from 2^-11 to 2^53
+    let x = m * (2.0f64).powi(-e) * if r.chance(1, 4) { 1024.0 } else { 1.0 };
+    if r.chance(1, 2) {
+        -x
+    } else {
+        x
+    }
+}
+
+fn rand_operand_pair(r: &mut Rng) -> (Opnd, Opnd, &'static str) {
+    match r.below(12) {
+        0 => (Opnd::Int(r.next() as i64), Opnd::Int(r.next() as i64), "random-int-full"),
+        1 => (Opnd::Int(rand_width_int(r)), Opnd::Int(rand_width_int(r)), "random-int-widths"),
+        2 => {
+            // sums / differences next to the 64-bit limits
+            let a = rand_width_int(r);
+            let lim = if r.chance(1, 2) { i64::MAX } else { i64::MIN };
+            let d = r.range(-3, 3);
+            let b = lim.wrapping_sub(a).wrapping_add(d);
+            let b = if r.chance(1, 2) { b } else { b.wrapping_neg() };
+            (Opnd::Int(a), Opnd::Int(b), "random-int-near-sum-limit")
+        }
+        3 => {
+            // products next to the 64-bit limits
+            let mut a = rand_width_int(r);
+            if a == 0 {
+                a = 3;
+            }
+            let lim = if r.chance(1, 2) { i64::MAX as i128 } else { i64::MIN as i128 };
+            let b = (lim / a as i128 + r.range(-2, 2) as i128).clamp(i64::MIN as i128, i64::MAX as i128) as i64;
+            (Opnd::Int(a), Opnd::Int(b), "random-int-near-product-limit")
+        }
+        4 => {
+            // division: wide dividend, small or special divisor
+            let a = if r.chance(1, 8) { *r.pick(&[i64::MIN, i64::MAX, i64::MIN + 1, 0]) } else { rand_width_int(r) };
+            let b = if r.chance(1, 4) { r.range(-3, 3) } else { rand_width_int(r) >> r.below(40) };
+            (Opnd::Int(a), Opnd::Int(b), "random-int-division")
+        }
+        5 => (Opnd::Float(f64::from_bits(r.next())), Opnd::Float(f64::from_bits(r.next())), "random-float-bits"),
+        6 => (Opnd::Float(rand_frac_float(r)), Opnd::Float(rand_frac_float(r)), "random-float-fractions"),
+        7 => {
+            // n + 0.5 ties and their neighbours
+            let n = (r.next() >> (12 + r.below(52))) as f64;
+            let x = n + 0.5;
+            let x = match r.below(4) {
+                0 => f64::from_bits(x.to_bits() + 1),
+                1 => f64::from_bits(x.to_bits().saturating_sub(1)),
+                _ => x,
+            };
+            let x = if r.chance(1, 2) { -x } else { x };
+            (Opnd::Float(x), Opnd::Float(rand_frac_float(r)), "random-float-ties")
+        }
+        8 => (Opnd::Int(rand_width_int(r)), Opnd::Float(rand_frac_float(r)), "random-int-float"),
+        9 => (Opnd::Float(rand_frac_float(r)), Opnd::Int(rand_width_int(r)), "random-float-int"),
+        10 => {
+            let a = rand_width_int(r);
+            let b = rand_width_int(r);
+            match r.below(3) {
+                0 => (int_str(a), Opnd::Int(b), "random-str-int"),
+                1 => (Opnd::Int(a), int_str(b), "random-str-int"),
+                _ => (int_str(a), int_str(b), "random-str-int"),
+            }
+        }
+        _ => {
+            let a = rand_frac_float(r);
+            let b = rand_frac_float(r);
+            match r.below(3) {
+                0 => (float_str(a), Opnd::Float(b), "random-str-float"),
+                1 => (Opnd::Int(rand_width_int(r)), float_str(b), "random-str-float"),
+                _ => (float_str(a), int_str(rand_width_int(r)), "random-str-float"),
+            }
+        }
+    }
+}
+
+fn random(r: &mut Run, rng: Rng, target_events: u64) {
+    // every pair is evaluated by all seven binary filters, its first operand by the four unary ones
+    // (+ round with 0..3 decimal places): 16 events per pair
+    let pairs = target_events / 16;
+    for i in 0..pairs {
+        let mut g = rng.fork(i);
+        let (a, b, fam) = rand_operand_pair(&mut g);
+        r.all_binary(fam, &a, &b);
+        for op in UNARY {
+            r.case(fam, op, &a, None);
+        }
+        for d in [0i64, 1, 2, 3] {
+            r.case(fam, "round", &a, Some(&Opnd::Int(d)));
+        }
+        r.case(fam, "round", &b, None);
+    }
+}
+
+/// re-execute one recorded input (`{op, a, b}`) on the real code and print the fresh event
+pub fn replay(j: &Json) -> bool {
+    let tp = Tpls::new();
+    let op = j["op"].as_str().unwrap_or("");
+    let Some(a) = Opnd::from_json(&j["a"]) else {
+        eprintln!("c15 replay: operand a missing or malformed");
+        return false;
+    };
+    let b = Opnd::from_json(&j["b"]);
+    match eval_case(&tp, op, &a, b.as_ref()) {
+        Some(ev) => println!("{}", serde_json::to_string(&ev).unwrap()),
+        None => eprintln!("c15 replay: unknown op {op:?}"),
+    }
     false
 }
